@@ -17,7 +17,7 @@ SCN, X = CASES[PARAM % len(CASES)]
 
 @obligation(funcs=["storage.kv.WriterThread._post_save", "storage.kv.WriterThread._delete_event", "storage.kv.Index.scanner",
                    "storage.kv.AuthorKindIndex.to_key"],
-            params={"quick": (0, 3, 4, 8, 9, 10, 11), "thorough": range(len(CASES))}, timeout=(280, 1800),
+            params={"quick": (0, 3, 4, 8, 9, 10, 11), "thorough": range(len(CASES))}, timeout=(450, 1800),
             bounds="store {e0} then arrival of e1 (in-order, out-of-order and equal timestamps: created_at symbolic 1..200; "
                    "authors by symbolic bool).  PARAM 0-7: kinds {0,3,10000,19999} vs same kind / neighbouring regular kinds "
                    "{1,4,9999,20000}; PARAM 8-11: kinds 30000/39999/40000 with d tags by selector from {absent, a, ab, bare, "
